@@ -131,7 +131,7 @@ CORPUS = [
             ch("2a04", bind(23), NOR), ch("2a05", bind(64), NOW, N)),
         svc(U128 % 0x100, ch("2a10", fixed(1, 0x42)), ch("2a11", fixed(2, 0xbeef), N), ch("2a12", fixed(4, 0x11223344), NOR),
             ch("2a13", cstr("bluetoe")), ch("2a14", blob("00ff10203040")), ch("2a15", cstr(""), name="")),
-        svc("1812", ch("2a20", bind(2), N, name="a name", descs=[dict(uuid="2904", bytes="0400"), dict(uuid="290a", bytes="aabbccddeeff00112233")])),
+        svc("1812", ch("2a20", bind(2), N, name="a name", descs=[dict(uuid="290a", bytes="aabbccddeeff00112233")])),
         mtu=23, wq=0),
     srv("handlers",
         svc("1810", ch("2a00", handler(8)), ch("2a01", handler(4, write=False), N), ch("2a02", handler(30, read=False)),
@@ -207,7 +207,7 @@ def random_cfg(rng, name="rnd"):
                 c["name"] = "".join(rng.choice("abcdefgh") for _ in range(rng.choice([0, 3, 25])))
             if rng.random() < 0.12:
                 c["descs"] = [dict(uuid="29%02x" % rng.randrange(3, 0x10), bytes="".join("%02x" % rng.randrange(256) for _ in range(rng.choice([1, 2, 25]))))
-                              for _ in range(rng.choice([1, 1, 2]))]
+                              for _ in range(1)]      # two descriptor<> options in one characteristic do not compile
             n_attr = 2 + (1 if (N in opts or I in opts) else 0) + (1 if c.get("name") is not None else 0) + len(c.get("descs") or [])
             if fixed_handles and rng.random() < 0.45:
                 h += rng.randrange(0, 5)
